@@ -14,7 +14,9 @@
 //!   · every container `display:block`; leaves are block boxes with a fixed-size measure function or empty
 //!   · `position:relative` with `inset:auto`; a share of `position:absolute` and `display:none` children
 //!   · `overflow:visible`, border-box, no aspect ratio, no percentages, no `auto` margins, `max-*: none`, `min-width: auto`
-//!   · margins in px from a small dyadic pool (positive, negative, zero); padding / border sometimes (per side)
+//!   · margins in px from a small dyadic pool (positive, negative, zero); below the root sometimes dyadic *percentages* for the
+//!     top/bottom margins (CSS: of the containing block's WIDTH; the monitor resolves them against the parent's reported content
+//!     box), then often together with a width that differs from the container's; padding / border sometimes (per side)
 //!   · `height`: auto or a length (0 included); `min-height` only on childless boxes           (exclusion A)
 //!   · `height: 0` never around in-flow children that all collapse through                      (exclusion B)
 //!   · `width`: auto, sometimes a length
@@ -105,13 +107,16 @@ fn common_fields(r: &mut Rng, s: &mut Style) {
     }
 }
 
-fn gen_node(r: &mut Rng, depth: usize, max_depth: usize, top: bool) -> TreeDesc {
+fn gen_node(r: &mut Rng, depth: usize, max_depth: usize, top: bool, pct_ok: bool) -> TreeDesc {
     let mut s = base_style();
     common_fields(r, &mut s);
+    // percentages of the children's margins refer to this box's content width; the family keeps content box = border box
+    // horizontally wherever a child uses one, so that the reference width is not in question
+    let kids_pct_ok = lp_px(s.padding.left) == 0.0 && lp_px(s.padding.right) == 0.0 && lp_px(s.border.left) == 0.0 && lp_px(s.border.right) == 0.0;
     let container = depth < max_depth && (top || r.chance(1, 2));
     let mut d = if container {
         let n = if top { 2 + r.below(3) } else { 1 + r.below(4) };
-        let children: Vec<TreeDesc> = (0..n).map(|_| gen_node(r, depth + 1, max_depth, false)).collect();
+        let children: Vec<TreeDesc> = (0..n).map(|_| gen_node(r, depth + 1, max_depth, false, kids_pct_ok)).collect();
         if r.chance(1, 6) {
             s.size.height = Dimension::length(*r.pick(&[0.0, 0.0, 10.0, 20.0, 50.0, 7.5]));
         }
@@ -142,6 +147,19 @@ fn gen_node(r: &mut Rng, depth: usize, max_depth: usize, top: bool) -> TreeDesc 
             }
         }
     };
+    if !top && pct_ok && r.chance(1, 6) {
+        // percentage vertical margins: resolved against the containing block's width, not the box's own
+        const PCT: [f32; 6] = [0.125, 0.25, 0.0625, 0.5, -0.125, -0.0625];
+        if r.chance(2, 3) {
+            d.style.margin.top = LengthPercentageAuto::percent(*r.pick(&PCT));
+        }
+        if r.chance(2, 3) {
+            d.style.margin.bottom = LengthPercentageAuto::percent(*r.pick(&PCT));
+        }
+        if r.chance(1, 2) {
+            d.style.size.width = Dimension::length(*r.pick(&[16.0, 40.0, 62.5, 100.0, 120.0, 160.0, 300.0]));
+        }
+    }
     if !top {
         if r.chance(1, 14) {
             d.style.display = Display::None;
@@ -184,6 +202,22 @@ fn fixed_cases() -> Vec<(&'static str, TreeDesc, Size<AvailableSpace>)> {
         let c = TreeDesc { style: base_style(), ctx: None, children: vec![leaf_h(0.0, 10.0, 0.0, 20.0), middle, leaf_h(5.0, 0.0, 0.0, 20.0)] };
         v.push(("in-flex", flex_wrap(c.clone()), def400));
         v.push(("root-maxc", c, Size::MAX_CONTENT));
+    }
+    // percentage top/bottom margins of a nested block that keeps its margins apart from its children's (border) and is wider
+    // than its container: they are 12.5 % of the CONTAINER's content width (seeded change C10-3 resolved them against the box's own)
+    {
+        let mut ms = base_style();
+        ms.margin.top = LengthPercentageAuto::percent(0.125);
+        ms.margin.bottom = LengthPercentageAuto::percent(0.125);
+        ms.border.top = lpx(2.0);
+        ms.border.bottom = lpx(2.0);
+        ms.size.width = Dimension::length(300.0);
+        let middle = TreeDesc { style: ms, ctx: None, children: vec![leaf_h(0.0, 0.0, 20.0, 10.0)] };
+        let mut cs = base_style();
+        cs.size.width = Dimension::length(100.0);
+        let c = TreeDesc { style: cs, ctx: None, children: vec![leaf_h(0.0, 5.0, 20.0, 20.0), middle, leaf_h(2.5, 0.0, 20.0, 20.0)] };
+        v.push(("in-flex", flex_wrap(c.clone()), def400));
+        v.push(("root-definite", c, def400));
     }
     // a collapsed-through box with negative margins between two siblings, inside a nested block whose margins adjoin
     {
@@ -297,7 +331,7 @@ pub fn run(cfg: &Cfg, out: &mut Out) {
         if cfg.wants(idx) {
             let mut r = Rng::for_case(cfg.seed, idx);
             let max_depth = 1 + r.below(3); // block tree of depth ≤ 4 (levels 0..=3)
-            let mut c = gen_node(&mut r, 0, max_depth, true);
+            let mut c = gen_node(&mut r, 0, max_depth, true, false);
             let (placement, d, avail) = match r.below(8) {
                 0 | 1 => {
                     c.style.size.width = Dimension::length(*r.pick(&[100.0, 200.0, 300.0, 62.5]));
